@@ -39,6 +39,11 @@ import (
 	"github.com/smallstep/nosql"
 )
 
+// crlMutex serialises CRL generation for every Authority of this process: during a
+// reload the old and the new Authority share one database, and a generation of the
+// old one may still be in flight while the new one generates its first list.
+var crlMutex sync.Mutex
+
 // Authority implements the Certificate Authority internal interface.
 type Authority struct {
 	config        *config.Config
@@ -83,7 +88,6 @@ type Authority struct {
 	// CRL vars
 	crlTicker  *time.Ticker
 	crlStopper chan struct{}
-	crlMutex   sync.Mutex
 
 	// If true, do not re-initialize
 	initOnce  bool
